@@ -123,6 +123,9 @@ TABLES = [
     {d: [(0, 480), (960, 1439)] for d in (1, 3, 5)},
     {},
     {4: [(1320, 120)], 5: [(60, 180)]},
+    # intervals of a day in the order they were written / added, not sorted
+    {d: [(780, 1020), (480, 720)] for d in range(5)},
+    {0: [(1080, 1380), (1410, 300), (360, 600)], 1: [(900, 960), (60, 120), (600, 660)], 6: [(1200, 1260), (0, 30)]},
 ]
 
 
@@ -156,7 +159,7 @@ def hours_calls(tier, rng):
             for a, b in ivs:
                 edges |= {a, b}
         for d in range(7):
-            if tier == "thorough" and ti < 8:
+            if tier == "thorough" and ti < 10:
                 ys = range(1440)
             else:
                 ys = sorted({y for y in range(0, 1440, 15)} | {(e + k) % 1440 for e in edges for k in (-1, 0, 1)})
